@@ -96,6 +96,17 @@ func farDate(a, b *variants.Variant) bool {
 
 func genC06(ctx *Ctx) {
 	pool := valuePool()
+	// every index around the ends of strings and lists whose byte length, rune count and element count differ
+	for _, a := range []*variants.Variant{variants.VariantFromString("日本"), variants.VariantFromString("héé"), variants.VariantFromString("😀"), variants.VariantFromString(""), variants.VariantFromString("ab"),
+		variants.VariantFromArray([]*variants.Variant{variants.VariantFromInteger(1), variants.VariantFromString("x")}), variants.VariantFromArray(nil)} {
+		for idx := -2; idx <= 9; idx++ {
+			for _, safe := range []bool{false, true} {
+				ctx.Count("op:index-boundary")
+				ctx.Input(c06Input(safe, 21, a, variants.VariantFromInteger(idx)), true)
+				ctx.Input(c06Input(safe, 21, a, variants.VariantFromLong(int64(idx))), true)
+			}
+		}
+	}
 	for op := 1; op <= 21; op++ {
 		for i, a := range pool {
 			for j, b := range pool {
@@ -106,7 +117,8 @@ func genC06(ctx *Ctx) {
 					continue // date-times further than 2^40 seconds from the epoch overflow time.Time itself: outside the model
 				}
 				related := a.Type() == b.Type() || (a.Type() == variants.DateTime && (b.Type() == variants.Long || b.Type() == variants.Integer))
-				if !ctx.Thorough && !(related && op >= 14 && op <= 19) && (i*131+j*17+op)%7 != int(ctx.Rnd.Int63()%7) {
+				indexing := op == 21 && (a.Type() == variants.String || a.Type() == variants.Array) && (b.Type() == variants.Integer || b.Type() == variants.Long)
+				if !ctx.Thorough && !indexing && !(related && op >= 14 && op <= 19) && (i*131+j*17+op)%7 != int(ctx.Rnd.Int63()%7) {
 					continue
 				}
 				for _, safe := range []bool{false, true} {
